@@ -155,8 +155,8 @@ static std::vector<Fault> enumerate(const std::vector<char> &b, int level, uint6
     if (level >= 1 || o % 2 == 0) for (long long w : {0ll, 0x7FFFFFFFll, 0xFFFFFFFFll, 0x80000000ll}) fs.push_back({2, o, w, 0});
     for (int p = 0; p < 10; ++p) if (level >= 1 || (o + p) % 3 == 0 || (p >= 5 && o < 64)) fs.push_back({3, o, p, 0});
   }
-  // the first 40 bytes hold the header, the counts and the first tables: always at step 1
-  if (step > 1) for (long o = 0; o < std::min<long>(L, 40); ++o) { for (int val : {0x00, 0xFF, 0x7F, 0x80}) fs.push_back({1, o, val, 0}); for (int p : {0, 5, 6, 7, 8, 9}) fs.push_back({3, o, p, 0}); fs.push_back({2, o, 0xFFFFFFFFll, 0}); }
+  // the first 72 bytes hold the header, the counts and the first tables: always at step 1
+  if (step > 1) for (long o = 0; o < std::min<long>(L, 72); ++o) { for (int val : {0x00, 0xFF, 0x7F, 0x80}) fs.push_back({1, o, val, 0}); for (int p : {0, 5, 6, 7, 8, 9}) fs.push_back({3, o, p, 0}); fs.push_back({2, o, 0xFFFFFFFFll, 0}); }
   // a varint that never ends: 400 000 continuation bytes from the offset on (whatever reads a varint there has to give up after the width of its type)
   for (long o = 8; o < L; o += (o < 64 ? 1 : bigfile ? (L + 199) / 200 : (level >= 1 ? 5 : 17))) fs.push_back({9, o, 400000, 0});
   for (int maj = 0; maj <= 3; ++maj) for (int mn = 0; mn <= 5; ++mn) fs.push_back({4, 0, maj, mn});
